@@ -196,6 +196,12 @@ def judge(spec: dict, args: tuple, ref: tuple, got: tuple) -> tuple[str, str | N
     if spec["count"] is not None and not JUDGE_SHIFT_COUNT_BEYOND_WIDTH:
         if args[spec["count"]] >= WIDTH[next(x for x in spec["req"] if x)]:
             return ("free", None)
+    conv = spec.get("conv")
+    if conv and ref[0] == "val":
+        # chain ending in a conversion of the (exact, int) intermediate value to a fixed-width type
+        lo, hi = RANGES[conv]
+        if not lo <= ref[1][1] <= hi:
+            return ("ok", None) if got[0] == "exc" else ("bad", "out-of-range-int-not-rejected")
     fixed_involved = any(t in RANGES for t in spec["ptypes"]) or spec["ret"] in RANGES or any(spec["req"])
     # 2. the reference raises
     if ref[0] == "exc":
@@ -257,6 +263,17 @@ def nontrivial(spec: dict, args: tuple, ref: tuple) -> bool:
 def signature(spec: dict, args: tuple, kind: str) -> str:
     """Cause-level identity: operator family + operand static types + coarse operand classes + kind."""
     fam, lit = spec["fam"], spec["lit"]
+    if spec.get("chain"):
+        ops = args[: spec["prod_arity"]]
+        boundary_reject = any(t is not None and not isinstance(v, float) and not RANGES[t][0] <= v <= RANGES[t][1]
+                              for v, t in zip(args, spec["req"]))
+        if kind == "out-of-range-int-not-rejected" and not boundary_reject:
+            return f"convert-int-to-{spec['conv']}|{kind}"
+        # the cause is (almost always) the producer's result or its representation, whichever compiled
+        # consumer observes it: one signature per producer and operand classes
+        cls = ["float" if isinstance(v, float) else opclass(v, spec["req"][i] or spec["ptypes"][i])
+               for i, v in enumerate(ops)]
+        return f"chain|{spec['prod']}|{','.join(spec['ptypes'][:len(ops)])}|{','.join(cls)}"
     if kind == "out-of-range-int-not-rejected":
         # one cause per target type, whatever operation performs the (explicit/implicit) conversion
         for v, t in zip(args, spec["req"]):
@@ -283,8 +300,27 @@ def signature(spec: dict, args: tuple, kind: str) -> str:
 # --------------------------------------------------------------------------- driver
 
 
-def cases(spec: dict, extra_full: bool, wide: bool = False) -> list[tuple]:
+C3_STATIC = [0, 1, -1, 1 << 62, -(1 << 62), (1 << 62) - 1]
+
+
+def cases(spec: dict, extra_full: bool, wide: bool = False, ref: Any = None) -> list[tuple]:
     D = domains(wide)
+    if "C3" in spec["doms"]:
+        # chain with a third operand: a small fixed set plus, per operand tuple, the exact intermediate
+        # value r (computed by the interpreter) and r + 1
+        assert spec["doms"][-1] == "C3" and ref is not None
+        prod = getattr(ref, spec["prod_ref"])
+        out = []
+        for xy in itertools.product(*[D[d] for d in spec["doms"][:-1]]):
+            cs = list(C3_STATIC)
+            try:
+                r = prod(*xy)
+            except Exception:  # noqa: BLE001
+                r = None
+            if r is not None:
+                cs += [c for c in (r, r + 1) if c not in cs]
+            out.extend(xy + (c,) for c in cs)
+        return out
     doms = [D[d] for d in spec["doms"]]
     out = list(itertools.product(*doms))
     if extra_full:
@@ -301,6 +337,13 @@ def cases(spec: dict, extra_full: bool, wide: bool = False) -> list[tuple]:
 
 
 def n_cases(spec: dict, extra_full: bool, wide: bool = False) -> int:
+    """Number of cases (an upper estimate for chains with a third operand); used to balance chunks."""
+    if "C3" in spec["doms"]:
+        D = domains(wide)
+        n = len(C3_STATIC) + 2
+        for d in spec["doms"][:-1]:
+            n *= len(D[d])
+        return n
     return len(cases(spec, extra_full, wide))
 
 
@@ -326,6 +369,7 @@ def run_job(job: dict) -> dict:
     comp, ref = load_pair(job["build_dir"], job["modname"], job["refname"])
     pfd = os.open(job["progress"], os.O_WRONLY | os.O_CREAT, 0o600)
     trace = job.get("trace", False)
+    afd = os.open(job["progress"] + ".args", os.O_WRONLY | os.O_CREAT, 0o600) if trace else -1
     cap = job.get("max_mismatches", 6)
     res: dict[str, Any] = {}
     for spec in job["specs"]:
@@ -335,14 +379,19 @@ def run_job(job: dict) -> dict:
         if "explicit" in job:
             cs = [tuple(dec(a) for a in c) for c in job["explicit"][name]]
         else:
-            cs = cases(spec, job.get("extra_full", False), job.get("wide", False))
-        n = nt = free = n_exc = mixed = 0
+            cs = cases(spec, job.get("extra_full", False), job.get("wide", False), ref)
+        prod = getattr(ref, spec["prod_ref"]) if spec.get("chain") else None
+        n = nt = free = n_exc = mixed = renorm = 0
         outcomes: set = set()
         bad: dict[str, dict] = {}
         nbad = 0
         first = None
         for i, args in enumerate(cs):
             if trace:
+                # the operands themselves (chains have per-tuple third operands), then the index
+                data = json.dumps([enc(a) for a in args]).encode()
+                os.ftruncate(afd, 0)
+                os.pwrite(afd, data, 0)
                 os.pwrite(pfd, f"{name} {i}".ljust(120).encode(), 0)
             r = outcome(f_r, args)
             g = outcome(f_c, args)
@@ -367,18 +416,31 @@ def run_job(job: dict) -> dict:
             if len(args) == 2 and spec["ptypes"] == ["int", "int"]:
                 if (SHORT_MIN <= args[0] <= SHORT_MAX) != (SHORT_MIN <= args[1] <= SHORT_MAX):
                     mixed += 1
+            if prod is not None:
+                # chain whose intermediate value fits a short int although an operand is a heap int:
+                # the producer must normalise the representation for the compiled consumer
+                ops = args[:spec["prod_arity"]]
+                if any(isinstance(a, int) and not SHORT_MIN <= a <= SHORT_MAX for a in ops):
+                    try:
+                        iv = prod(*ops)
+                    except Exception:  # noqa: BLE001
+                        iv = None
+                    if iv is not None and SHORT_MIN <= iv <= SHORT_MAX:
+                        renorm += 1
             if len(outcomes) < 64:
                 outcomes.add(g if g[0] == "exc" else ("val", g[1][0]))
             if (first is None and len(args) == 2 and g[0] == "val" and nontrivial(spec, args, r)
                     and all(not isinstance(a, bool) and abs(a) > 2 for a in args)):
                 first = {"function": name, "args": [pretty(enc(a)) for a in args], "compiled": show(g),
                          "reference": show(r)}
-        res[name] = {"n": n, "nontrivial": nt, "free": free, "exceptions": n_exc, "bad": nbad, "mixed": mixed,
+        res[name] = {"n": n, "nontrivial": nt, "free": free, "exceptions": n_exc, "bad": nbad, "mixed": mixed, "renorm": renorm,
                      "mismatches": list(bad.values()),
                      "outcomes": sorted(o[1] if o[0] == "exc" else "value:" + o[1] for o in outcomes),
                      "sample": first}
     os.pwrite(pfd, "DONE -1".ljust(120).encode(), 0)
     os.close(pfd)
+    if afd >= 0:
+        os.close(afd)
     return res
 
 
